@@ -362,6 +362,104 @@ theorem C13_stanza_error_roundtrip_payload (parse : String → Option String) (e
 example : (⟨⟨nsErr, "gone"⟩, [], [.chars "xmpp:other@example.net"], ⟨nsErr, "gone"⟩⟩ : Elem).name ≠ textName := by
   decide
 
+/-! ### error replies through bytes, in every content namespace (round C) -/
+
+/-- the stanza built by the `Error` helpers is balanced, so the printer accepts it -/
+theorem C13_error_reply_balanced (k : Kind) (x : Stz) (e : SErr) : balanced (errorReply k x e) = true :=
+  (C13_wrap_inner k (swap x "error") (errTokens e []) [] (C13_stanza_error_balanced e [] rfl)).2
+
+/-- **the error of a reply is found and decoded in every content namespace**: for every stanza
+kind, every value of `XMLName.Space` (none, client, server, component, anything else) and every
+error, `UnmarshalError` on the reply built by `IQ.Error`/`Message.Error`/`Presence.Error` — taken
+as tokens, and after printing and re-parsing, where `<error/>` has inherited the stanza's
+namespace — returns the canonical form of the error -/
+theorem C13_error_reply_unmarshal (parse : String → Option String) (k : Kind) (x : Stz) (e : SErr)
+    (hby : e.by_ ≠ "" → parse e.by_ = some e.by_) (hc : condOf e ≠ "text") :
+    unmarshalError parse (errorReply k x e).tail =
+      .ok ⟨e.by_, e.typ, condOf e, (sortTexts e.texts).filter (·.2 ≠ "")⟩ ∧
+    ∃ w, wire (errorReply k x e) = some w ∧
+      unmarshalError parse w.tail = .ok ⟨e.by_, e.typ, condOf e, (sortTexts e.texts).filter (·.2 ≠ "")⟩ ∧
+      w.head? = some (.start ⟨x.name.space, k.loc⟩ (startAttrs k (swap x "error"))) := by
+  have hrt := C13_stanza_error_roundtrip parse e hby hc
+  have key : ∀ n : Name, isErrorName n = true →
+      unmarshalError parse ((wrap k (swap x "error") (.start n (errAttrs e) :: errContent e [] ++ [.stop n])).tail) =
+        .ok ⟨e.by_, e.typ, condOf e, (sortTexts e.texts).filter (·.2 ≠ "")⟩ := by
+    intro n hn
+    have hf := findError_first isErrorName n n (errAttrs e) (errContent e [])
+      [.stop (startName k (swap x "error"))] hn (depthAfter_errContent e)
+    have hd : decodeErr parse (.start n (errAttrs e) :: errContent e [] ++ [.stop n]) = decodeErr parse (errTokens e []) :=
+      decodeErr_names parse n n _ _ _ _
+    simp only [List.cons_append] at hf hd
+    simp only [unmarshalError, unmarshalErrorP, wrap, List.tail_cons, List.cons_append, List.append_assoc,
+      List.nil_append, hf, hd, hrt]
+  refine ⟨?_, wireGo [] (errorReply k x e), ?_, ?_, ?_⟩
+  · exact key ⟨"", "error"⟩ rfl
+  · simp [wire, C13_error_reply_balanced]
+  · rw [wireGo_errorReply]; exact key ⟨x.name.space, "error"⟩ rfl
+  · rw [wireGo_errorReply]; simp [wrap, startElement, startName, swap]
+
+/-- non-vacuity, on a component stream: the reply read back has `<error/>` in
+`jabber:component:accept` and its error is decoded -/
+example : (wire (errorReply .iq ⟨⟨"jabber:component:accept", "iq"⟩, "a1", "c.example.com", "j@example.com/b", "", "get"⟩
+      ⟨"", "cancel", "item-not-found", [("", "no such item")]⟩)).map (fun w => unmarshalError (fun s => some s) w.tail) =
+    some (.ok ⟨"", "cancel", "item-not-found", [("", "no such item")]⟩) := by decide
+
+/-- an `UnmarshalError` that only accepts `<error/>` in no, the client or the server namespace
+loses the error of every reply on a component stream (what a plausible "tightening" does) -/
+theorem C13_error_reply_ns_filter_fails :
+    (wire (errorReply .iq ⟨⟨"jabber:component:accept", "iq"⟩, "a1", "", "", "", "get"⟩
+      ⟨"", "cancel", "item-not-found", []⟩)).map (fun w =>
+        unmarshalErrorP (fun n => n.loc == "error" && (n.space == "" || n.space == "jabber:client" || n.space == "jabber:server"))
+          (fun s => some s) w.tail) = some .missing := by decide
+
+/-- **the payload echoed in front of the error is skipped**: any sequence of complete elements
+that are not called `error` (and white space between the children, see the probe) in front of the
+rest of the stanza changes nothing in what `UnmarshalError` returns -/
+theorem C13_unmarshal_error_skips_payload (parse : String → Option String) (es : List Elem)
+    (hes : ∀ x ∈ es, x.ok) (hn : ∀ x ∈ es, x.name.loc ≠ "error") (rest : List Tok) :
+    unmarshalError parse (es.flatMap Elem.toks ++ rest) = unmarshalError parse rest := by
+  have := findErrorP_elems isErrorName es hes (fun x hx => by simpa [isErrorName] using hn x hx) rest
+  simp only [unmarshalError, unmarshalErrorP, this]
+
+example : unmarshalError (fun s => some s)
+    ((⟨⟨"urn:app", "query"⟩, [], [.chars "q"], ⟨"urn:app", "query"⟩⟩ : Elem).toks ++
+      (errorReply .iq ⟨⟨"", "iq"⟩, "1", "", "", "", "get"⟩ ⟨"", "cancel", "conflict", []⟩).tail) =
+    .ok ⟨"", "cancel", "conflict", []⟩ := by decide
+
+/-! ### probe facts: the real codecs evaluated on a finite domain (round C) -/
+
+/-- the model's `UnmarshalError` on the probe stanza: white space, one element called `n` with
+`type='cancel'` holding `<conflict/>`, the end of the stanza -/
+def probeUnmarshal (n : Name) : String :=
+  match unmarshalError (fun s => some s)
+      [.chars "\n", .start n [attr0 "type" "cancel"], .start ⟨nsErr, "conflict"⟩ [], .stop ⟨nsErr, "conflict"⟩, .stop n,
+        .stop ⟨n.space, "iq"⟩] with
+  | .ok e => if e.cond = "conflict" ∧ e.typ = "cancel" then "ok" else "bad"
+  | .missing => "missing"
+  | .bad => "bad"
+
+/-- regenerated by running the real `stanza.UnmarshalError`: an `<error/>` child is found and
+decoded in EVERY namespace it can have inherited from the stream (none, client, server, the two
+component namespaces, a foreign one), an element of another name never is — and the model's
+`unmarshalError` agrees with the whole table -/
+theorem C13_gen_error_ns_probe :
+    Generated.C13.errorNsProbe = some (["", "jabber:client", "jabber:server", "jabber:component:accept",
+      "jabber:component:connect", "urn:other"].map fun sp =>
+        (sp, probeUnmarshal ⟨sp, "error"⟩, probeUnmarshal ⟨sp, "failure"⟩)) := by decide
+
+/-- … and that table says: found everywhere -/
+theorem C13_error_ns_probe_all_found :
+    ∀ sp ∈ ["", "jabber:client", "jabber:server", "jabber:component:accept", "jabber:component:connect", "urn:other"],
+      probeUnmarshal ⟨sp, "error"⟩ = "ok" ∧ probeUnmarshal ⟨sp, "failure"⟩ = "missing" := by decide
+
+/-- regenerated by running the real decoders: a text of n bytes comes back with n bytes from
+`stanza.Error` and from `stream.Error`, for n = 0 and next to 2^8, 2^10, 2^12, 2^16 and at 2^20:
+no cap, no truncation (the model keeps every text whole: `C13_stanza_error_roundtrip`,
+`C13_stream_error_roundtrip` hold for all strings) -/
+theorem C13_gen_text_size_probe :
+    Generated.C13.textSizeProbe = some (([0, 1, 255, 256, 257, 1023, 1024, 1025, 4095, 4096, 4097, 65535, 65536,
+      65537, 1048576] : List Nat).map fun (n : Nat) => (n, (n : Int), (n : Int))) := by decide
+
 /-! ### Stream errors -/
 
 /-- balanced for all field contents and any balanced application payload -/
